@@ -23,11 +23,11 @@ type base struct {
 	checks          map[string]int
 }
 
-func (b *base) ID() string               { return b.id }
-func (b *base) Level() string            { return b.level }
-func (b *base) Rule() string             { return b.rule }
-func (b *base) Assumptions() []string    { return b.assumptions }
-func (b *base) Batches(t string) int     { return b.batches[t] }
+func (b *base) ID() string                  { return b.id }
+func (b *base) Level() string               { return b.level }
+func (b *base) Rule() string                { return b.rule }
+func (b *base) Assumptions() []string       { return b.assumptions }
+func (b *base) Batches(t string) int        { return b.batches[t] }
 func (b *base) ChecksPerBatch(t string) int { return b.checks[t] }
 
 func viol(sc *runner.Scenario, clause, format string, a ...any) *runner.Violation {
